@@ -1,11 +1,11 @@
 SPECIFICATION SpecAtomic
 CONSTANTS
   NC = 1
-  NW = 1
+  NW = 2
   Mode = "exact"
   AtomicQueue = TRUE
-  StaleTimeout = FALSE
-  InitStates = {"Queued"}
+  StaleTimeout = TRUE
+  InitStates = {"Queued", "Locked"}
   B <- BSmall
   MaxHist = 0
 VIEW view
